@@ -2,6 +2,7 @@ package c09
 
 import (
 	"testing"
+	"verif/internal/pbt"
 )
 
 // FuzzJavaPasses is the byte-level target: bytes -> text; inputs the shipped parser rejects
@@ -35,7 +36,7 @@ func FuzzJavaPasses(f *testing.F) {
 			t.Skip()
 		}
 		if msg := judgeText(text); msg != "" {
-			t.Fatalf("%s\n--- unit ---\n%s", msg, text)
+			pbt.FuzzFail(t, "units", UnitCase{Text: text}, msg)
 		}
 	})
 }
